@@ -54,9 +54,14 @@ def check(C, fn, name, dom, loop_leaves, facts0, rep):
         sign = None
         for c in lf.pc:
             if isinstance(c, alg.Cond) and any(str(x).startswith('cb') for x in sp.sympify(c.a).free_symbols) and sp.sympify(c.b) == 0:
-                sign = {'>': 'gt', '<=': 'le'}.get(c.rel(), sign)
+                sign = {'>': 'gt', '<=': 'le', '>=': 'ge', '<': 'lt'}.get(c.rel(), sign)
         if sign is None:
             continue
+        if sign == 'ge':
+            probs.append('the outcome cmp == 0 is treated like cmp > 0: equal keys are no longer kept in insertion order')
+            continue
+        if sign == 'lt':
+            sign = 'le'
         a0, a1 = elem_index(C, cbs[0], siz), elem_index(C, cbs[1], siz)
         if tab['lo'] in byname and tab['hi'] in byname and not isinstance(lf.loop_cur[byname[tab['lo']]], Ptr):
             # ---- binary search iteration
